@@ -86,6 +86,33 @@ class Interp:
             return self.call(e)
         if isinstance(e, ast.Set) and not e.elts:
             return set()
+        if isinstance(e, ast.List):
+            out = []
+            for x in e.elts:
+                if isinstance(x, ast.Starred):
+                    out.extend(self.ev(x.value))
+                else:
+                    out.append(self.ev(x))
+            return out
+        if isinstance(e, ast.Subscript):
+            base = self.ev(e.value)
+            idx = self.ev(e.slice) if not isinstance(e.slice, ast.Slice) else slice(
+                self.ev(e.slice.lower) if e.slice.lower else None,
+                self.ev(e.slice.upper) if e.slice.upper else None,
+                self.ev(e.slice.step) if e.slice.step else None,
+            )
+            if isinstance(base, (list, tuple)):
+                return base[idx]
+            raise AnalysisError(f"region-set interpreter: subscript of non-sequence {src(e)}")
+        if isinstance(e, ast.UnaryOp) and isinstance(e.op, ast.USub):
+            return -self.ev(e.operand)
+        if isinstance(e, ast.ListComp) and len(e.generators) == 1 and not e.generators[0].ifs:
+            g = e.generators[0]
+            out = []
+            for item in self.ev(g.iter):
+                self.assign(g.target, item)
+                out.append(self.ev(e.elt))
+            return out
         raise AnalysisError(f"region-set interpreter: unsupported expression {src(e)}")
 
     def call(self, e: ast.Call):
@@ -103,9 +130,29 @@ class Interp:
             return set(v)
         if name == "len":
             return len(self.ev(e.args[0]))
+        if name in ("set.intersection", "set.union", "set.difference"):
+            args = []
+            for a in e.args:
+                if isinstance(a, ast.Starred):
+                    args.extend(self.ev(a.value))
+                else:
+                    args.append(self.ev(a))
+            if not args or not all(isinstance(a, (set, frozenset)) for a in args):
+                raise AnalysisError(f"region-set interpreter: bad arguments in {src(e)}")
+            return getattr(set, name.split(".")[1])(*args)
+        if name in ("list", "tuple", "reversed", "enumerate", "zip"):
+            vals = [self.ev(a) for a in e.args]
+            return list({"list": list, "tuple": tuple, "reversed": reversed, "enumerate": enumerate, "zip": zip}[name](*vals))
         if isinstance(fn, ast.Attribute):
             recv = self.ev(fn.value)
-            args = [self.ev(a) for a in e.args]
+            args = []
+            for a in e.args:
+                if isinstance(a, ast.Starred):
+                    args.extend(self.ev(a.value))
+                else:
+                    args.append(self.ev(a))
+            if isinstance(recv, list) and fn.attr in ("append", "extend", "insert", "pop", "copy", "clear"):
+                return getattr(recv, fn.attr)(*args)
             if isinstance(recv, set):
                 m = fn.attr
                 if m in (
